@@ -794,7 +794,7 @@ func handleGetex(params internal.HandlerFuncParams) ([]byte, error) {
 	// Handle persist
 	exCommand := strings.ToUpper(params.Command[2])
 	// If time is provided with PERSIST it is effectively ignored
-	if exCommand == "persist" {
+	if exCommand == "PERSIST" {
 		// getValues will update key access so no need here
 		params.SetExpiry(params.Context, exkey, time.Time{}, false)
 		return bulkString(value), nil
